@@ -1,5 +1,5 @@
 (* C12 — built-in impls describe serde's representation of library types.  Statements only. *)
-From TsRs Require Import Base.Str Base.Outcome Gen.Tables Model.Case Model.TsAst Model.Rust Model.Docs Model.Gen Spec.TsFree Spec.TsSem Spec.Serde Spec.LibSpec Proofs.Sem_lib_proofs Proofs.Gen_refs_proofs.
+From TsRs Require Import Base.Str Base.Outcome Gen.Tables Model.Case Model.TsAst Model.Rust Model.Docs Model.Gen Spec.TsFree Spec.TsSem Spec.Serde Spec.LibSpec Spec.SerdeDe Proofs.Sem_lib_proofs Proofs.Gen_refs_proofs Proofs.De_proofs.
 From Coq Require Import List.
 Import ListNotations.
 
@@ -21,6 +21,28 @@ Theorem C12_values_inhabit_reported_type :
     lib_ok t = true -> ser_ty R sd t v = Some j -> name_of R t = Ok a -> (rdepth t < f)%nat ->
     memberb E f a j = true.
 Proof. exact lib_ser_member. Qed.
+
+(* ... and conversely: every JSON value (objects with distinct keys) that is a member of the reported type is read by
+   serde's Deserialize for the library type (Spec/SerdeDe.v: a value, or a leaf misfit — a number the Rust integer type
+   cannot hold, a `char` string of another length), for type expressions of any depth whose arrays have at most 64 elements
+   (above that the reported type is Array<T>, wider than [T; N]) *)
+Theorem C12_members_of_reported_type_are_read :
+  forall E dd t a j f,
+    lib_ok t = true -> small_arr t = true -> name_of [] t = Ok a -> memberb E f a j = true -> wf_json j = true ->
+    de_ty [] dd t j <> DReject.
+Proof. exact lib_member_accepted. Qed.
+
+Example C12_read_nonvacuous :
+  let t := RVec (RTuple [ROption (RLeaf (LInt true 0%Z 18446744073709551615%Z));
+                         RMap (RLeaf LString) (RArray 2%nat (RLeaf LBool));
+                         RResult (RLeaf LChar) (RRange (RLeaf (LInt false 0%Z 255%Z)))]) in
+  let j := JArr [JArr [JNull; JObj [(lit "k", JArr [JBool true; JBool false])];
+                       JObj [(lit "Err", JObj [(lit "start", JInt 1); (lit "end", JInt 7)])]]] in
+  lib_ok t = true /\ small_arr t = true /\ wf_json j = true /\
+  exists a, name_of [] t = Ok a /\ memberb [] 10 a j = true /\
+    de_ty [] (fun _ _ _ => DReject) t j = DOk (VSeq [VSeq [VNone; VMap [(VStr (lit "k"), VSeq [VBool true; VBool false])];
+                                                          VVariant 1 [VStruct [VInt 1; VInt 7]]]]).
+Proof. cbv zeta. split; [reflexivity|]. split; [reflexivity|]. split; [reflexivity|]. eexists. split; [reflexivity|]. split; vm_compute; reflexivity. Qed.
 
 (* arrays: a tuple of n for n <= 64, Array<T> above — for every n, not only 0..65 *)
 Theorem C12_array_shape :
@@ -54,6 +76,7 @@ Theorem C12_container_formats_from_source :
   forallb lib_format_row_ok lib_formats = true /\ (9 <= length lib_formats)%nat.
 Proof. exact lib_formats_ok. Qed.
 
+Print Assumptions C12_members_of_reported_type_are_read.
 Print Assumptions C12_container_formats_from_source.
 Print Assumptions C12_derive_formats_from_source.
 Print Assumptions C12_primitive_rows_match_serde.
